@@ -59,7 +59,7 @@ func genC11(t *rapid.T) c11Case {
 			Op:     pick(t, "op", "setattr", "setattr", "setattr", "create", "create", "create", "mkdir", "mkdir", "symlink", "symlink", "update"),
 			Upd:    pick(t, "upd", "policy-empty", "policy-same", "export-empty", "export-same"),
 			On:     pick(t, "on", "f", "d", "l", "f"),
-			How:    pick(t, "how", uint32(0), 1),
+			How:    pick(t, "how", uint32(0), 1, 2),
 			SetUid: rapid.Bool().Draw(t, "su"), SetGid: rapid.Bool().Draw(t, "sg"),
 			UidSel: rapid.IntRange(0, 2).Draw(t, "us"), GidSel: rapid.IntRange(0, 2).Draw(t, "gs"),
 			Mode: rapid.Bool().Draw(t, "mode"),
@@ -104,6 +104,10 @@ func runC11(tb stat.TB, c c11Case) {
 					return caller
 				}
 				return 4242
+			}
+			if rq.Op == "create" && rq.How == nfsx.Exclusive {
+				// createhow3 EXCLUSIVE carries a verifier and no sattr3: nothing is asked for
+				rq.SetUid, rq.SetGid, rq.Mode = false, false, false
 			}
 			var sa nfsx.Sattr
 			if rq.SetUid {
